@@ -107,9 +107,18 @@ Definition run1 (i : sx) : sx :=
 
 (* ---- two threads on one blocking TCP client (Conc/RecvLock.v)
    input  = L [A 200; case; L schedule; A na; A nb]     case = a single-client input as above (its call list is ignored:
-            every call is recv_packet(timeout=None)); schedule = thread ids (0/1) the scheduler lets run; na, nb = calls per thread
-   output = L [L [per step: L [status_a; status_b]]; L [returned calls in order: L [A tid; res]]; A bytes_taken; A items_left]
+            every call is recv_packet(timeout=None)); schedule = labels: 0/1 the scheduler lets thread 0/1 run, 2/3 thread
+            0/1 (if not in a call) makes an extra recv_packet(timeout=0) provided the lock is held; na, nb = calls per thread
+   output = L [L [per step: L [status_a; status_b]]; L [returned calls in order: L [A tid; res]]; A bytes_taken; A items_left;
+               L [threads whose timeout-0 call timed out on the lock, in order]]
      status = L [A 0; A n] not in a call, n calls left | L [A 1; A n] waiting for the receive lock | L [A 2; A n] parked in the transport *)
+Definition as_label (x : sx) : option tlabel :=
+  match x with
+  | A 0%Z => Some (LRun false) | A 1%Z => Some (LRun true)
+  | A 2%Z => Some (LTry false) | A 3%Z => Some (LTry true)
+  | _ => None
+  end.
+
 Definition pc_sx (p : tpc) : sx :=
   match p with
   | TIdle n => L [A 0; of_nat n]
@@ -121,15 +130,16 @@ Section RunT.
   Context {C : Type}.
   Variable M : machine (option bytes) C.
 
-  Definition run_threads (c0 : C) (o : oracle) (sch : list bool) (na nb : nat) : sx :=
-    let '(obs, s) := trun_obs M (tinit c0 o na nb) sch in
+  Definition run_threads (c0 : C) (o : oracle) (sch : list tlabel) (na nb : nat) : sx :=
+    let '(obs, s) := trun_l_obs M (tinit c0 o na nb) sch in
     L [L (map (fun ab => L [pc_sx (fst ab); pc_sx (snd ab)]) obs);
        L (map (fun ir => L [of_bool (fst ir); res_sx (client_convert (snd ir))]) (rev (t_log s)));
        of_nat (oracle_bytes o - oracle_bytes (t_o s));
-       of_nat (length (t_o s))].
+       of_nat (length (t_o s));
+       L (map of_bool (rev (t_try s)))].
 End RunT.
 
-Definition run_t (i : sx) (sch : list bool) (na nb : nat) : sx :=
+Definition run_t (i : sx) (sch : list tlabel) (na nb : nat) : sx :=
   match i with
   | L (A kind :: cfg :: d :: os :: _ :: _ :: A bufsize :: _) =>
       do dec <- mk_dec d;
@@ -156,7 +166,7 @@ Definition run_t (i : sx) (sch : list bool) (na nb : nat) : sx :=
 Definition run (i : sx) : sx :=
   match i with
   | L [A 200%Z; case; sch; A na; A nb] =>
-      do s <- as_list_of as_bool sch;
+      do s <- as_list_of as_label sch;
       run_t case s (Z.to_nat na) (Z.to_nat nb)
   | _ => run1 i
   end.
